@@ -19,14 +19,14 @@ CLAIM = {
     "technique": "runtime monitoring: partition/merge history enumeration against a two-pass float64 oracle + cross-partition agreement + red-zone canaries",
 }
 ASSUMPTIONS = ["float32 accumulation error gate 1e-4 relative (measured noise ~1e-7..1e-6)", "ChannelStats is constructed with the true stream length"]
-RULE = ("data classes {constant, two-valued, 2/4/8-bit uniform, float32 normal, wide-range float, one huge outlier} x nchans {1,3,8} x modes {basic,full}: "
+RULE = ("data classes {constant, two-valued, 2/4/8-bit uniform, float32 normal, wide-range float, one huge outlier, tiny amplitude (1e-6)} x nchans {1,3,8} x modes {basic,full}: "
         "n in 1..10 all 2^(n-1) compositions + all split points; n in 11..2000 random compositions (incl. single-sample chunks), merges k in {1,n-1,random}, "
         "merge of merges. Non-trivial = >= 2 chunks or a merge; distinct = distinct (class, n, nchans, mode, composition/merge tree, seed).")
-CLASSES = ("constant", "two_valued", "bits2", "bits4", "bits8", "normal", "wide", "outlier")
+CLASSES = ("constant", "two_valued", "bits2", "bits4", "bits8", "normal", "wide", "outlier", "tiny")
 
 
 def REQUIRED(tier):
-    return ["histories:composition", "histories:merge", "histories:merge_of_merges", "class:constant", "class:wide", "class:outlier",
+    return ["histories:composition", "histories:merge", "histories:merge_of_merges", "class:constant", "class:wide", "class:outlier", "class:tiny",
             "mode:basic", "mode:full", "constant_channel_checks", "single_sample_chunks", "canary_audits", "cross_partition_checks"]
 
 
@@ -60,6 +60,10 @@ def gen_data(cls, n, nch, dseed):
     elif cls == "wide":
         mag = 10 ** rng.uniform(-3, np.log10(6.5e4), size=(n, nch))
         x = (mag * rng.choice([-1, 1, 0], size=(n, nch), p=[0.45, 0.45, 0.1])).astype(np.float32)
+    elif cls == "tiny":  # low-amplitude floats: sums of squared deviations far below 1e-8 but far above float32 underflow
+        x = (rng.normal(size=(n, nch)) * 1e-6 * rng.uniform(0.5, 5) + rng.uniform(-1e-6, 1e-6)).astype(np.float32)
+        if n > 3:
+            x[:, 0] = np.abs(x[:, 0]) ** 2 * 1e6   # skewed channel
     elif cls == "outlier":
         x = rng.normal(size=(n, nch)).astype(np.float32)
         x[rng.integers(0, n), :] = 3.0e4
